@@ -1,6 +1,7 @@
 import Proofs.Binary
 import Proofs.BinaryBhiksha
 import Proofs.BinaryQuant
+import Model.TrieLM
 /-!
 # C04 — Binary model files round-trip exactly
 
@@ -68,7 +69,7 @@ theorem magic_distinct :
 classes have six different type numbers (`Kind.ofNum` inverts `typeNum`), each below `numModelNames`. -/
 theorem recognize_type (k : Kind) (order mult : Nat) (hv : Bool) (counts : List Nat) (rest : List Nat)
     (ho : order < 256) (hm : mult < 2^32) (hl : counts.length = order) (hc : ∀ c ∈ counts, c < 2^64)
-    (h1 : floatLtOne mult = false) :
+    (h1 : floatNotGeOne mult = false) :
     ∃ p, recognize (headerBytes { fixed := { order := order, multBits := mult, modelType := k.typeNum, hasVocab := hv,
                                               searchVersion := k.searchVersion }, counts := counts } ++ rest) = .binary p
       ∧ Kind.ofNum p.fixed.modelType = some k ∧ p.fixed.modelType < numModelNames
@@ -314,7 +315,7 @@ theorem no_uint8_wrap (array : Bool) (quantBits maxOffset maxVocab maxNext bhiks
 the loader recognises the writer's model class and computes exactly the writer's offsets for the vocabulary lookup, the
 search structure and the vocabulary strings. -/
 theorem file_roundtrip_layout (k : Kind) (cfg : Config) (arpa fixed : List Nat) (sawUnk iv : Bool) (sl : Nat) (rest : List Nat)
-    (hlen : fixed.length = arpa.length) (ho : arpa.length < 256) (hm : cfg.multBits < 2^32) (h1 : floatLtOne cfg.multBits = false)
+    (hlen : fixed.length = arpa.length) (ho : arpa.length < 256) (hm : cfg.multBits < 2^32) (h1 : floatNotGeOne cfg.multBits = false)
     (hc : ∀ c ∈ storedCounts k arpa fixed, c < 2^64)
     (h0 : k.isTrie = true → cnt fixed 0 = cnt arpa 0 + (if sawUnk then 0 else 1)) :
     let w := writeLayout k cfg arpa fixed sawUnk iv sl
@@ -331,6 +332,54 @@ theorem file_roundtrip_layout (k : Kind) (cfg : Config) (arpa fixed : List Nat) 
   have hcfg : ({ cfg with multBits := p.fixed.multBits } : Config) = cfg := by rw [hpm]
   rw [hcfg, hcounts]
   exact load_layout_eq_write_layout k cfg arpa fixed sawUnk iv sl hlen h0
+
+
+open KV.TrieLM in
+/-- the trie a loader builds over the file's bytes depends on the configuration only through what `CfgAgree` fixes -/
+theorem ofLayout_congr {q a : Bool} {counts : List Nat} {c1 c2 : Config} (h : CfgAgree q a counts.length c1 c2) (mem s : Nat) :
+    ofLayout mem q a c1 counts s = ofLayout mem q a c2 counts s := by
+  unfold ofLayout
+  rw [trieSetup_congr h]
+  cases q with
+  | false => simp
+  | true => obtain ⟨h1, h2⟩ := h.1 rfl; simp [h1, h2]
+
+open KV.TrieLM in
+/-- **roundtrip_semantic** (trie models): the decoded search structure after load *is* the one that was written.
+A writer with configuration `cfg` lays the trie out at `w.search` (`writeLayout`) and stores its parameters; a loader that
+starts from an arbitrary configuration `cfg0`, knows only the stored counts and reads the file's bytes `mem`, ends up with
+exactly the same `TrieLM.Trie` value — same offsets, bit widths, Bhiksha tables, quantiser tables over the same bytes — hence
+every lookup, every `FullScore`, every enumeration of records gives the same result.  (That the mapped/read bytes are the
+written bytes is the OS's part; the n-gram content of those bytes is `trie_refines`.) -/
+theorem roundtrip_semantic (q a : Bool) (cfg cfg0 : Config) (arpa fixed : List Nat) (sawUnk iv : Bool) (sl mem : Nat)
+    (hp : cfg.probBits < 256) (hb : cfg.backoffBits < 256) (hh : cfg.bhikshaBits < 256)
+    (hlen : fixed.length = arpa.length)
+    (h0 : cnt fixed 0 = cnt arpa 0 + (if sawUnk then 0 else 1))
+    (hrd : ∀ p ∈ storedParamBytes (.trie q a) cfg fixed (writeLayout (.trie q a) cfg arpa fixed sawUnk iv sl).search,
+        load8 mem p.1 = p.2) :
+    let w := writeLayout (.trie q a) cfg arpa fixed sawUnk iv sl
+    ∃ cfg', updateConfigFromBinary (.trie q a) (load8 mem) w.storedCounts cfg0 = .ok cfg' ∧
+      ofLayout mem q a cfg' w.storedCounts (loadLayout (.trie q a) cfg' w.storedCounts).search
+        = ofLayout mem q a cfg w.storedCounts w.search := by
+  intro w
+  have hsc : w.storedCounts = fixed := by simp [w, writeLayout, storedCounts, Kind.isTrie]
+  have hl := load_layout_eq_write_layout (.trie q a) cfg arpa fixed sawUnk iv sl hlen (fun _ => h0)
+  have hsearch : w.search = totalHeaderSize fixed.length + vocabSize (.trie q a) cfg (cnt fixed 0) := by
+    have := hl.2.2.1
+    simp only [loadLayout] at this
+    rw [← this, hsc]
+  rw [hsc]
+  have hrd' : ∀ p ∈ storedParamBytes (.trie q a) cfg fixed
+      (totalHeaderSize fixed.length + vocabSize (.trie q a) cfg (cnt fixed 0)), load8 mem p.1 = p.2 := by
+    rw [← hsearch]; exact hrd
+  obtain ⟨cfg', hu, hagree⟩ := stored_params_read_aux q a cfg cfg0 fixed (load8 mem) hp hb hh hrd'
+  refine ⟨cfg', hu, ?_⟩
+  rw [ofLayout_congr hagree]
+  congr 1
+  -- the loader's search offset does not depend on the configuration for the sorted vocabulary
+  simp only [loadLayout, vocabSize, Kind.isTrie, if_true]
+  rw [hsearch]
+  simp [vocabSize, Kind.isTrie]
 
 
 end KV.C04
